@@ -92,10 +92,21 @@ def dialog_rule(case, obs):
     return None
 
 
+def gen_c07_none(rnd, sid):
+    """k rejected lines, an accepted line after which the screen redraws itself and its prompt() answers None once (no input is asked for; a queued signal's handler
+    asks for the next redraw), then rejected lines again: the rejection count starts from zero, the redraw comes on the fifth"""
+    k = rnd.randint(1, 4); s_ = sid.next()
+    inp = [{"ret": "DISCARDED"} for _ in range(k)] + [{"ret": "PROCESSED", "acts": [["redraw_sig", 0], ["enq", "U0", 1, None, s_]]}] + [{"ret": "DISCARDED"} for _ in range(rnd.randint(3, 11))] + [{"ret": "q"}]
+    prompts = [{} for _ in range(k + 1)] + [{"ret": "none"}] + [{} for _ in range(20)]
+    s0 = dict(id=0, name="S0", title=rnd.choice([None, "T0"]), text="hello", height=30, input_required=True, no_separator=False, skip_check=False, scripts={"input": inp, "prompt": prompts})
+    return dict(op="machine", mode="c07", width=80, screens=[s0], handlers=[dict(cls="U0", hid=0, data=None, scripts=[[["redraw_sig", 0]]])], init=[["schedule", 0, rnd.choice([None, 1])]],
+                stdin=["x"] * 30, quit_cb=None, quit_screen=None, exc_handler=False, run_empty=False, deliver_at=[])
+
+
 def generate(rnd, tier):
     n = 700 if tier == "quick" else 8000
     sid = SidCounter()
-    cases = [gen_c07(rnd) for _ in range(n)] + [gen_case(rnd, "tame", sid) for _ in range(n // 3)]
+    cases = [gen_c07_none(rnd, sid) for _ in range(n // 20)] + [gen_c07(rnd) for _ in range(n)] + [gen_case(rnd, "tame", sid) for _ in range(n // 3)]
     return [with_cc(c) for c in cases] + [gen_dialog(rnd) for _ in range(n // 2)]
 
 
@@ -112,16 +123,30 @@ def reference(case):
     def ret_of(scr):
         k = counts.get(scr, 0); counts[scr] = k + 1
         sc = (specs[scr].get("scripts") or {}).get("input") or []
-        if k < len(sc) and sc[k].get("acts"): return "PROCESSED+redraw"
+        if k < len(sc) and sc[k].get("acts"):
+            queued.extend(a for a in sc[k]["acts"] if a[0] == "enq")
+            return "PROCESSED+redraw"
         return (sc[k].get("ret") if k < len(sc) else None)
+    pcount = {}; asked = [True]; queued = []
+    def prompt_cb():
+        scr, args, _ = stack[-1]; log.append(["cb", scr, "prompt", args])
+        j = pcount.get(scr, 0); pcount[scr] = j + 1
+        ps = (specs[scr].get("scripts") or {}).get("prompt") or []
+        asked[0] = not (j < len(ps) and ps[j].get("ret") == "none")
+        if not asked[0]: errs[scr] = 0               # a None prompt: no input is asked for, the rejection count starts again
     def draw():
         scr, args, _ = stack[-1]
         if scr not in ready: log.append(["cb", scr, "setup", args]); ready.add(scr)
-        log.append(["cb", scr, "refresh", args]); log.append(["cb", scr, "show"]); log.append(["cb", scr, "prompt", args])
+        log.append(["cb", scr, "refresh", args]); log.append(["cb", scr, "show"]); prompt_cb()
     def prompt_only():
-        scr, args, _ = stack[-1]; log.append(["cb", scr, "prompt", args])
+        prompt_cb()
     draw()
     while True:
+        if not asked[0]:
+            # nothing is read; a queued user signal is dispatched (its handler asks for a redraw of screen 0), else the loop blocks
+            if not queued: return log, "blocked"
+            sg = queued.pop(0); h = next(h_ for h_ in case["handlers"] if h_["cls"] == sg[1])
+            log.append(["H", h["hid"], sg[4], h.get("data"), len(returns) + 1]); log.append(["h<", h["hid"]]); draw(); continue
         line = lines.pop(0) if lines else ""
         if not lines and len(log) > 3000: return log, "cut"
         log.append(["read", line])
